@@ -157,8 +157,9 @@ def extract(repo, ci):
 
 def run(ctx):
     ctx.attempt(kinematics_rule, ctx)
-    from .c18ops import operator_rule, surface_operator_rule
+    from .c18ops import operator_rule, surface_operator_rule, clenshaw_curtis_rule
 
+    ctx.attempt(clenshaw_curtis_rule, ctx)
     ctx.attempt(surface_operator_rule, ctx)
     ctx.attempt(operator_rule, ctx)
     # 'over arbitrarily many steps': no memo of the step-start state survives the end of the step
